@@ -116,8 +116,6 @@ MUTANTS = [
     ("c04-serialize-u32-via-i32", ["C04", "C14"], SS, "    fn serialize_u32(self, v: u32) -> Result<Value> {\n        self.serialize_i64(i64::from(v))", "    fn serialize_u32(self, v: u32) -> Result<Value> {\n        self.serialize_i64(i64::from(v as i32))", "kill"),
     ("c04-some-without-wrapping-list", ["C04", "C14"], SS, "        Ok(Value::cons(value.serialize(self)?, Value::Null))", "        value.serialize(self)", "kill"),
     ("c04-option-accepts-nil", ["C18"], SD, "            Value::Null => visitor.visit_none(),\n            Value::Cons(cons) if cons.cdr().is_null() => {", "            Value::Null | Value::Nil => visitor.visit_none(),\n            Value::Cons(cons) if cons.cdr().is_null() => {", "survive"),
-    ("c04-map-access-skips-entry", ["C04", "C18"], SD, "        self.cursor = match cell.cdr() {\n            Value::Cons(cell) => Some(cell),\n            Value::Null => None,", "        self.cursor = match cell.cdr() {\n            Value::Cons(cell) => cell.cdr().as_cons().or(Some(cell)).filter(|_| false).or(Some(cell)),\n            Value::Null => None,", "survive"),
-    ("c04-f32-through-i64", ["C04"], SS, "    fn serialize_f32(self, v: f32) -> Result<Value> {\n        self.serialize_f64(f64::from(v))", "    fn serialize_f32(self, v: f32) -> Result<Value> {\n        self.serialize_f64(f64::from(v) as f32 as f64 + 0.0 * f64::from(v.fract()))", "survive"),
     ("c14-unit-variant-as-string", ["C14", "C04"], SS, "        Ok(Value::symbol(variant))\n    }\n\n    fn serialize_newtype_struct", "        Ok(Value::string(variant))\n    }\n\n    fn serialize_newtype_struct", "kill"),
     ("c14-struct-fields-as-strings", ["C14"], SS, "impl ser::SerializeStruct for SerializeStruct {\n    type Ok = Value;\n    type Error = Error;\n\n    fn serialize_field<V>(&mut self, field: &'static str, value: &V) -> Result<()>\n    where\n        V: ser::Serialize + ?Sized,\n    {\n        self.fields\n            .push(Value::cons(Value::symbol(field), to_value(value)?));", "impl ser::SerializeStruct for SerializeStruct {\n    type Ok = Value;\n    type Error = Error;\n\n    fn serialize_field<V>(&mut self, field: &'static str, value: &V) -> Result<()>\n    where\n        V: ser::Serialize + ?Sized,\n    {\n        self.fields\n            .push(Value::cons(Value::string(field), to_value(value)?));", "kill"),
     ("c14-tuple-as-list", ["C14"], SS, "    fn end(self) -> Result<Value> {\n        Ok(Value::Vector(self.items.into()))", "    fn end(self) -> Result<Value> {\n        Ok(Value::list(self.items))", "kill"),
